@@ -88,6 +88,10 @@ def cases(tier, seed):
             for f in (1, 2, 3):
                 add("ptrace.index", dict(sys=[1], dims=[d, e, f], sysform="list", dimform="list", sys_omitted=True), "partial_trace/sys-omitted-dim-given")
                 add("ptrace.index", dict(sys=[1], dims=[f, d, e, 2], sysform="list", dimform="array", sys_omitted=True), "partial_trace/sys-omitted-dim-given")
+    # operators of very small / very large magnitude (the map is linear: nothing may depend on the absolute size of the entries)
+    for sc in (1e-17, 1e-12, 1e12):
+        for S, dd in (([0], [2, 3]), ([1], [3, 2]), ([0, 2], [2, 2, 2])):
+            add("ptrace.index", dict(sys=S, dims=dd, sysform="list", dimform="list", entries="complex", scale=sc), "partial_trace/complex/magnitude-%g" % sc)
     for d in (2, 3, 4, 5, 6, 7):
         add("ptrace.index", dict(sys=[1], dims=[d, d], sysform="list", dimform="omitted", sys_omitted=True), "partial_trace/omitted")
         add("ptrace.index", dict(sys=[0], dims=[d, d], sysform="list", dimform="omitted"), "partial_trace/omitted-dim")
